@@ -68,6 +68,7 @@ ASSUMPTIONS = [
     "code-only facets (enum internal values, python_name) cannot survive SDL; after a round trip defaults are compared in their external form (enum names, field names)",
     "schemas whose SDL form the builder cannot build at all are exercised through the code routes only",
     "history preludes: graphql_blocking of `{ a __typename }` and of the introspection query; transform_schema with an identity VisibilitySchemaTransform",
+    "route code-1 (list-typed defaults given as a single unwrapped value) checks printability and the structural round trip, not the text fixpoint: the rebuilt schema holds the one-item list",
     "round-trip prints happen in the worker process: on a tree whose printer is history-dependent their verdicts may depend on the cases the worker ran before (the history part does not)",
 ]
 BOUNDS = {
@@ -273,7 +274,7 @@ def make_schema(features, route, applied_first=False):
             return None, sm, "sdl-unbuildable:%s" % type(e).__name__
     smc = G.with_internals(sm) if route == "code+" else sm
     # applied directives need AST nodes: the code routes cannot carry them
-    s = M.sm_to_code(smc, key_order={"code-rev": "reversed", "code-rot": "rotated"}.get(route))
+    s = M.sm_to_code(smc, key_order={"code-rev": "reversed", "code-rot": "rotated"}.get(route), unwrapped_singles=(route == "code-1"))
     s.validate()
     return s, sm, None
 
@@ -312,13 +313,13 @@ def rt_eval(features, route, o, st=None):
         _CTX["key"] = key
         s, sm, note = make_schema(features, route)
         _CTX["v"] = (s, sm, note, M.sm_from_schema(s) if s is not None else (None, None))
-        if s is not None and route != "sdl" and st is not None:
+        if s is not None and route not in ("sdl", "code-1") and st is not None:
             # the code route must realise the model (otherwise the harness, not the printer, is off)
             want = M.sm_expected(G.with_internals(sm) if route == "code+" else sm)
             d0 = M.sm_diff(want, _CTX["v"][3][0])
             if d0:
                 st.n("code_route_differs_from_model:" + d0[0][0])
-        if s is not None and route != "sdl":
+        if s is not None and route not in ("sdl", "code-1"):
             # a model the constructors cannot express (e.g. deprecated with an empty reason) is left to the sdl route
             want = M.sm_expected(G.with_internals(sm) if route == "code+" else sm)
             _CTX["skip"] = bool(M.sm_diff(want, _CTX["v"][3][0]))
@@ -361,8 +362,8 @@ def rt_eval(features, route, o, st=None):
         ]
     got, bad2 = M.sm_from_schema(s2)
     # what the round trip must preserve
-    if route == "code+":
-        exp = M.sm_expected(sm)  # external form of the same model
+    if route in ("code+", "code-1"):
+        exp = M.sm_expected(sm)  # external form of the same model (code-1: single values wrapped as the list type demands)
     else:
         exp = base
     ignore = ()
@@ -392,7 +393,9 @@ def rt_eval(features, route, o, st=None):
     r2 = _print(s2, o)
     if r2[0] != "ok":
         out.append(("reprint-raises:%s%s" % (r2[1], rsfx), r2[2]))
-    elif r2[1] != t1 and not out:
+    elif r2[1] != t1 and not out and route != "code-1":
+        # (code-1: a single value standing for a list is printed as given, `= {k: 1}`; the rebuilt schema holds the
+        #  one-item list and prints `= [{k: 1}]` -- the structural comparison above is the oracle for that route)
         # (a structural difference already explains a different second text)
         out.append(("not-fixpoint/%s%s" % (diff_facet(t1, r2[1]), rsfx), "options %s: first %r second %r" % ((opt_label(o),) + _first_diff(t1, r2[1]))))
     return out
@@ -833,6 +836,9 @@ def rt_cases(tier):
             grid, routes = "menu3", ("sdl-or-code+",)
         for route in routes:
             yield {"kind": "rt", "features": fs, "route": route, "grid": grid}
+        if grid != "menu3" and ("d:list-single" in fs or "d:list" in fs or "d:obj" in fs):
+            # programmatically built schemas whose list-typed defaults are single (unwrapped) values
+            yield {"kind": "rt", "features": fs, "route": "code-1", "grid": "menu3" if grid == "menu6" else "menu6"}
         if grid != "menu3" and _has_object_default(fs):
             # programmatically built schemas whose default dicts are not in field declaration order
             for route in ("code-rev", "code-rot"):
